@@ -291,8 +291,15 @@ def r7_group(ck, F, R="C07-R7"):
         ok = ch == ["Merge"] and propagated(F, b, m[0])
         ck.ob(R, f"merge-error-wrapped/{b.loc(m[0])}", ok, f"a merge error is wrapped as Error::Merge(e) and propagated (conversions applied: {ch})", b, m[0])
     # first entry starts a group with its value
-    somes = [s for s, st in b.sites() if s.i is not None and st["s"] == "assign" and st["rv"]["rv"] == "agg" and st["rv"].get("variant") == "Some" and b.in_loop(s.bb) and "Cow" in st["pl"]["ty"]]
-    ck.ob(R, "first-entry-starts-group", len(somes) >= 1, "the first entry initialises (key, [value])", b)
+    somes = []
+    for s, st in b.sites():
+        if s.i is not None and st["s"] == "assign" and st["rv"]["rv"] == "agg" and st["rv"].get("variant") == "Some" and b.in_loop(s.bb):
+            e = b._expr_of_def((s, "assign", st["rv"]))
+            p = e.a[0].strip() if e.a else None
+            # the group being built: a pair / small struct one part of which is the key of the entry just read
+            if p is not None and p.k == "agg" and len(p.a) >= 2 and nxt and any(any(w.k == "call" and w.x.get("site") == nxt[0][0] for w in o.walk()) for o in p.a):
+                somes.append(s)
+    ck.ob(R, "first-entry-starts-group", len(somes) >= 1, "the first entry initialises the current group (its key, a value list)", b)
 
 
 SETTERS = [("compression_type", "chunk_compression_type"), ("compression_level", "chunk_compression_level"), ("index_key_interval", "index_key_interval"), ("block_size", "block_size"), ("index_levels", "index_levels")]
